@@ -4,6 +4,7 @@ import (
 	"bytes"
 	"fmt"
 	"io"
+	"math/big"
 	"math/rand"
 	"reflect"
 	"sort"
@@ -11,7 +12,9 @@ import (
 	"testing"
 
 	"github.com/relab/hotstuff"
+	"github.com/relab/hotstuff/core"
 	"github.com/relab/hotstuff/internal/proto/clientpb"
+	"github.com/relab/hotstuff/protocol/rules"
 )
 
 // ---------------------------------------------------------------------------------------------
@@ -141,7 +144,8 @@ type c18Event struct {
 	kind int
 	scen Scenario
 	code uint64
-	bad  bool // the scenario is not a list of `views` options
+	bad  bool  // the scenario is not a list of `views` options
+	rem2 int64 // Remaining() asked a second time before the call
 }
 
 func c18Next(g *Generator) (s Scenario, kind int) {
@@ -165,26 +169,51 @@ func c18Calls(g *Generator, calls int, keyIdx map[string]int, n int, views int) 
 	evs := make([]c18Event, 0, calls)
 	for c := 0; c < calls; c++ {
 		e := c18Event{rem: g.Remaining()}
+		e.rem2 = g.Remaining()
 		e.scen, e.kind = c18Next(g)
 		if e.kind == c18Scen {
-			if len(e.scen) != views {
-				e.bad = true
-			}
-			for _, v := range e.scen {
-				idx, ok := keyIdx[c18ViewKey(v)]
-				if !ok {
-					e.bad = true
-					idx = 0
-				}
-				e.code = e.code*uint64(n) + uint64(idx)
-			}
-			if e.bad {
-				e.code = 1<<63 + e.code%1000
-			}
+			e.code, e.bad = c18Code(e.scen, keyIdx, n, views)
 		}
 		evs = append(evs, e)
 	}
 	return evs
+}
+
+func c18Code(scen Scenario, keyIdx map[string]int, n, views int) (code uint64, bad bool) {
+	if len(scen) != views {
+		bad = true
+	}
+	for _, v := range scen {
+		idx, ok := keyIdx[c18ViewKey(v)]
+		if !ok {
+			bad = true
+			idx = 0
+		}
+		code = code*uint64(n) + uint64(idx)
+	}
+	if bad {
+		code = 1<<63 + code%1000
+	}
+	return
+}
+
+// c18Retained re-reads every scenario the generator handed out earlier: a returned scenario must
+// not change when the generator is used further (no reused buffers), and Remaining() must be a
+// pure query.
+func c18Retained(v *verifOut, evs []c18Event, keyIdx map[string]int, n, views int, meta map[string]any) {
+	okKeep, okIdem := true, true
+	for _, e := range evs {
+		if e.kind == c18Scen {
+			if code, _ := c18Code(e.scen, keyIdx, n, views); code != e.code {
+				okKeep = false
+			}
+		}
+		if e.rem != e.rem2 {
+			okIdem = false
+		}
+	}
+	v.Oracle(okKeep, "generator.next:returned-scenario-changed-later", "a scenario returned by NextScenario was modified by later use of the generator", meta)
+	v.Oracle(okIdem, "generator.remaining:not-a-pure-query", "two consecutive Remaining() calls return different numbers", meta)
 }
 
 func c18GEvents(evs []c18Event) string {
@@ -488,6 +517,7 @@ func c18Drain(v *verifOut, st c18Set, o c18Opts, seed *int64, capN int, doJSON b
 	if panicked {
 		return nil, false
 	}
+	v.Oracle(g.Settings() == st.settings(), "generator.settings:changed", fmt.Sprintf("Settings() = %+v after NewGenerator(%+v)", g.Settings(), st.settings()), meta)
 	shuf := "None"
 	if seed != nil {
 		if c18Shuffle(g, *seed) {
@@ -495,6 +525,9 @@ func c18Drain(v *verifOut, st c18Set, o c18Opts, seed *int64, capN int, doJSON b
 			v.Seen(fmt.Sprintf("drain %v %s %d", st, tag, *seed), false, nil)
 			return nil, false
 		}
+		wantS := st.settings()
+		wantS.Shuffle, wantS.Seed = true, *seed
+		v.Oracle(g.Settings() == wantS, "shuffle:settings-do-not-record-the-seed", fmt.Sprintf("Settings() = %+v after Shuffle(%d)", g.Settings(), *seed), meta)
 		if n > 0 {
 			perm, offs := c18ShuffleOracle(*seed, n, views)
 			shuf = fmt.Sprintf("(Some (%s,%s))", c18GNats(perm), c18GNats(offs))
@@ -571,6 +604,7 @@ func c18Drain(v *verifOut, st c18Set, o c18Opts, seed *int64, capN int, doJSON b
 	v.Oracle(okDistinct, "generator.next:repeats-a-scenario", "the generator yields the same scenario twice", meta2(tag))
 	v.Oracle(okOpt, "generator.next:scenario-not-from-options", "a yielded scenario is not a list of `views` generated options", meta2(tag))
 	v.Oracle(okRem, "generator.remaining:not-counting-down-by-one", "Remaining() before a call is not announced minus scenarios yielded so far", meta2(tag))
+	c18Retained(v, evs, o.keyIdx, n, views, meta2(tag))
 	if full {
 		// exactly the announced number of scenarios, then EOF for good
 		yieldedBeforeEOF := 0
@@ -659,7 +693,7 @@ func c18JSON(v *verifOut, st c18Set, settings Settings, evs []c18Event, o c18Opt
 			v.Oracle(false, "json:read-error", err.Error(), meta)
 			return
 		}
-		e := c18Event{rem: rem, kind: c18Scen, scen: s}
+		e := c18Event{rem: rem, rem2: rem, kind: c18Scen, scen: s}
 		if len(s) != len(scens[i]) {
 			okMember = false
 			e.bad = true
@@ -691,6 +725,14 @@ func c18JSON(v *verifOut, st c18Set, settings Settings, evs []c18Event, o c18Opt
 		}
 		back = append(back, e)
 	}
+	// scenarios handed out by the JSON source must stay as they were when more are read
+	okKeep := true
+	for _, e := range back {
+		if code, _ := c18Code(e.scen, o.keyIdx, n, views); code != e.code && !e.bad {
+			okKeep = false
+		}
+	}
+	v.Oracle(okKeep, "json.source:returned-scenario-changed-later", "a scenario returned by the JSON source was modified when later scenarios were read", meta)
 	v.Oracle(okLeader, "json.roundtrip:leader-changed", "a leader differs after ToJSON/FromJSON", meta)
 	v.Oracle(okMember, "json.roundtrip:membership-changed", "partition membership differs after ToJSON/FromJSON", meta)
 	v.Count("json_roundtrips")
@@ -757,6 +799,12 @@ func c18Generator(v *verifOut) {
 		}
 	}
 
+	byKey := map[[3]uint8]c18Opts{}
+	for k, o := range all {
+		byKey[[3]uint8{k.n, k.t, k.k}] = o
+	}
+	c18Scripts(v, byKey)
+
 	// boundary / malformed settings: no partitions, no nodes, more twins than nodes
 	for _, st := range []c18Set{
 		{Nodes: 3, Twins: 0, Parts: 0}, {Nodes: 3, Twins: 1, Parts: 0}, {Nodes: 0, Twins: 0, Parts: 1},
@@ -789,11 +837,229 @@ func c18Generator(v *verifOut) {
 		}
 		v.Count("random_settings")
 		capR := 20 + v.rng.Intn(v.Pick(200, 1500))
+		if _, exact := c18IntPow(len(o.lp), int(st.Views)); !exact {
+			// announced number beyond 2^53: compare the count-down relative to its start
+			seed := v.rng.Int63()
+			c18Script(v, st, o, []c18Seg{{nil, capR / 2}, {&seed, capR / 2}}, "random:huge")
+			continue
+		}
 		if v.rng.Intn(2) == 0 {
 			c18Drain(v, st, o, nil, capR, false)
 		} else {
 			seed := v.rng.Int63() - (1 << 62)
 			c18Drain(v, st, o, &seed, capR, v.rng.Intn(4) == 0)
+		}
+	}
+}
+
+// ---- scripted runs: Shuffle after partial consumption, repeated Shuffle, Shuffle after EOF,
+// and settings whose announced number leaves the exact range of float64/int64 ----
+
+type c18Seg struct {
+	seed  *int64 // Shuffle(seed) first, if not nil
+	calls int    // then this many NextScenario calls
+}
+
+func c18BigCode(scen Scenario, keyIdx map[string]int, n int) string {
+	code := new(big.Int)
+	bn := big.NewInt(int64(n))
+	for _, v := range scen {
+		code.Mul(code, bn)
+		code.Add(code, big.NewInt(int64(keyIdx[c18ViewKey(v)])))
+	}
+	return code.String()
+}
+
+func c18Script(v *verifOut, st c18Set, o c18Opts, segs []c18Seg, label string) {
+	n, views := len(o.lp), int(st.Views)
+	meta := st.meta()
+	meta["script"] = label
+	g, panicked, _ := c18NewGen(st.settings())
+	if panicked {
+		return
+	}
+	want, exact := c18IntPow(n, views)
+	rel := !exact // the announced number itself is outside the exactness assumption
+	rem0 := g.Remaining()
+	if exact {
+		v.Oracle(rem0 == want, "generator.announced:not-options-to-the-views", fmt.Sprintf("Remaining()=%d initially, but there are %d options and %d views", rem0, n, views), meta)
+	}
+	var all []c18Event
+	var segTerms []string
+	shuffleOnlyBeforeUse, yielded, calls := true, 0, 0
+	var seeds []int64
+	for _, sg := range segs {
+		sh := "None"
+		if sg.seed != nil {
+			before := g.Remaining()
+			if c18Shuffle(g, *sg.seed) {
+				v.Oracle(false, "shuffle:panic", "Generator.Shuffle panics", meta)
+				return
+			}
+			v.Oracle(g.Remaining() == before, "shuffle:changes-remaining", "Shuffle changes Remaining()", meta)
+			wantS := st.settings()
+			wantS.Shuffle, wantS.Seed = true, *sg.seed
+			v.Oracle(g.Settings() == wantS, "shuffle:settings-do-not-record-the-seed", fmt.Sprintf("Settings() = %+v after Shuffle(%d)", g.Settings(), *sg.seed), meta)
+			if n > 0 {
+				perm, offs := c18ShuffleOracle(*sg.seed, n, views)
+				sh = fmt.Sprintf("(Some (%s,%s))", c18GNats(perm), c18GNats(offs))
+			} else {
+				sh = "(Some ([],[]))"
+			}
+			if yielded > 0 {
+				shuffleOnlyBeforeUse = false
+			}
+			seeds = append(seeds, *sg.seed)
+		}
+		evs := c18Calls(g, sg.calls, o.keyIdx, n, views)
+		for _, e := range evs {
+			if e.kind == c18Scen {
+				yielded++
+			}
+		}
+		calls += sg.calls
+		all = append(all, evs...)
+		segTerms = append(segTerms, fmt.Sprintf("(%s,%s)", sh, gNat(sg.calls)))
+	}
+	meta["seeds"] = seeds
+	meta["announced"] = rem0
+	meta["yielded"] = yielded
+	meta["calls"] = calls
+	v.Count("script")
+	v.Count("script_" + strings.SplitN(label, ":", 2)[0])
+	if rel {
+		v.Count("script_relative_remaining")
+	}
+	v.CountN("scenarios_observed", yielded)
+	v.Seen(fmt.Sprintf("script %v %s %v", st, label, seeds), n >= 2 && views >= 2, meta)
+
+	okPanic, okOpt, okRem, okDistinct := true, true, true, true
+	seen := map[string]bool{}
+	obs := make([]string, len(all))
+	y := int64(0)
+	for i, e := range all {
+		// Remaining() counts down by one per scenario (int64 arithmetic wraps consistently)
+		if e.rem-rem0 != -y {
+			okRem = false
+		}
+		r := e.rem
+		if rel {
+			r = e.rem - rem0
+		}
+		switch e.kind {
+		case c18Scen:
+			y++
+			if e.bad {
+				okOpt = false
+				obs[i] = fmt.Sprintf("(%s,EvPanic)", gZ(r))
+				continue
+			}
+			code := c18BigCode(e.scen, o.keyIdx, n)
+			if seen[code] {
+				okDistinct = false
+			}
+			seen[code] = true
+			obs[i] = fmt.Sprintf("(%s,EvScen %s%%N)", gZ(r), code)
+		case c18EOF:
+			obs[i] = fmt.Sprintf("(%s,EvEOF)", gZ(r))
+		default:
+			okPanic = false
+			obs[i] = fmt.Sprintf("(%s,EvPanic)", gZ(r))
+		}
+	}
+	v.Oracle(okPanic, "generator.next:panic", "NextScenario panics in a scripted run", meta)
+	v.Oracle(okOpt, "generator.next:scenario-not-from-options", "a yielded scenario is not a list of `views` generated options", meta)
+	v.Oracle(okRem, "generator.remaining:not-counting-down-by-one", "Remaining() before a call is not the initial number minus scenarios yielded so far", meta)
+	c18Retained(v, all, o.keyIdx, n, views, meta)
+	if shuffleOnlyBeforeUse {
+		v.Oracle(okDistinct, "generator.next:repeats-a-scenario", "the generator yields the same scenario twice", meta)
+	}
+	// EOF must not come before |lp|^views scenarios were yielded, however large that number is
+	trueCount := new(big.Int).Exp(big.NewInt(int64(n)), big.NewInt(int64(views)), nil)
+	beforeEOF, sawEOF := 0, false
+	for _, e := range all {
+		if e.kind != c18Scen {
+			sawEOF = e.kind == c18EOF
+			break
+		}
+		beforeEOF++
+	}
+	if !exact {
+		v.Oracle(!(sawEOF && big.NewInt(int64(beforeEOF)).Cmp(trueCount) < 0), "generator.count:fewer-than-announced",
+			fmt.Sprintf("EOF after %d scenarios, but there are %d options and %d views", beforeEOF, n, views), meta)
+	}
+	if exact && int64(calls) > want {
+		// whatever Shuffle calls were interleaved: exactly the announced number, then EOF for good
+		before := 0
+		for _, e := range all {
+			if e.kind != c18Scen {
+				break
+			}
+			before++
+		}
+		if int64(before) < want {
+			v.Oracle(false, "generator.count:fewer-than-announced", fmt.Sprintf("%d scenarios announced by Remaining(), %d yielded before EOF", want, before), meta)
+		} else if int64(yielded) > want {
+			v.Oracle(false, "generator.count:more-than-announced", fmt.Sprintf("%d scenarios announced by Remaining(), %d yielded in %d calls", want, yielded, calls), meta)
+		} else {
+			v.Oracle(true, "", "", nil)
+		}
+	}
+	ss := v.Stream("script", "script_mismatches", 10)
+	v.Case(ss, fmt.Sprintf("(%s,%s,%s,%s,%s)", gNat(n), gNat(views), gBool(rel), gList(segTerms), gList(obs)), meta)
+}
+
+func c18Scripts(v *verifOut, all map[[3]uint8]c18Opts) {
+	s1, s2 := int64(11), int64(-4242)
+	// (1) deep odometers: tiny option lists, 5..9 views, drained completely, plain and shuffled
+	for _, k := range [][3]uint8{{2, 0, 1}, {3, 1, 1}, {3, 0, 1}, {2, 1, 2}} {
+		o := all[k]
+		for views := 5; views <= 9; views++ {
+			if p, ok := c18IntPow(len(o.lp), views); !ok || p > 700 {
+				continue
+			}
+			st := c18Set{Nodes: k[0], Twins: k[1], Parts: k[2], Views: uint8(views)}
+			c18Drain(v, st, o, nil, 700, views == 5)
+			c18Drain(v, st, o, &s1, 700, views == 6)
+		}
+	}
+	// (2) Shuffle in the middle of a run, twice, and after EOF
+	for _, k := range [][3]uint8{{2, 0, 1}, {3, 0, 1}, {2, 0, 2}, {3, 0, 2}, {3, 1, 2}, {4, 1, 2}} {
+		o := all[k]
+		n := len(o.lp)
+		for views := 1; views <= 3; views++ {
+			p, ok := c18IntPow(n, views)
+			if !ok || p > int64(v.Pick(220, 2000)) || p < 2 {
+				continue
+			}
+			N := int(p)
+			st := c18Set{Nodes: k[0], Twins: k[1], Parts: k[2], Views: uint8(views)}
+			for _, m := range []int{1, n - 1, n, n + 1, N - 1, N} {
+				if m < 1 || m > N {
+					continue
+				}
+				c18Script(v, st, o, []c18Seg{{nil, m}, {&s1, N - m + 3}}, fmt.Sprintf("midstream:%d-then-shuffle", m))
+			}
+			c18Script(v, st, o, []c18Seg{{&s1, 0}, {&s2, N + 3}}, "twice:shuffle-shuffle")
+			c18Script(v, st, o, []c18Seg{{&s1, 0}, {&s1, N + 3}}, "twice:same-seed")
+			c18Script(v, st, o, []c18Seg{{&s1, n}, {&s2, N - n + 3}}, "midstream:shuffle-use-shuffle")
+			c18Script(v, st, o, []c18Seg{{nil, N + 1}, {&s1, 3}}, "aftereof:shuffle")
+		}
+	}
+	// (3) announced numbers at and beyond the exact range of float64 / int64
+	for _, c := range []struct {
+		k     [3]uint8
+		views []int
+	}{
+		{[3]uint8{2, 0, 1}, []int{52, 53, 54, 62, 63, 64, 255}},
+		{[3]uint8{3, 0, 2}, []int{20, 21, 24, 25, 255}},
+		{[3]uint8{4, 1, 2}, []int{12, 13, 15, 16, 100}},
+	} {
+		o := all[c.k]
+		for _, views := range c.views {
+			st := c18Set{Nodes: c.k[0], Twins: c.k[1], Parts: c.k[2], Views: uint8(views)}
+			c18Script(v, st, o, []c18Seg{{nil, 40}}, "huge:plain")
+			c18Script(v, st, o, []c18Seg{{&s2, 25}, {&s1, 15}}, "huge:shuffled")
 		}
 	}
 }
@@ -878,14 +1144,18 @@ func c18GReplicas(rs [][]c18Log) string {
 }
 
 func c18Verdict(v *verifOut) {
-	const nh = 4
-	blocks := make([]*hotstuff.Block, nh+1)
+	const nh = 4       // hashes used by the random stream
+	const nBlocks = 10 // distinct synthetic blocks (long chains + a fork block)
+	blocks := make([]*hotstuff.Block, nBlocks+1)
 	hs := map[hotstuff.Hash]bool{}
-	for h := 1; h <= nh; h++ {
+	for h := 1; h <= nBlocks; h++ {
 		blocks[h] = hotstuff.NewBlock(hotstuff.Hash{}, hotstuff.QuorumCert{}, &clientpb.Batch{}, hotstuff.View(h), 1)
 		hs[blocks[h].Hash()] = true
 	}
-	if len(hs) != nh {
+	// replica ids are irrelevant to the verdict: rotate through contiguous, zero, and large ids
+	idPool := []hotstuff.ID{1, 2, 3, 4, 0, 255, 256, 65535, 65536, 1 << 24, 1 << 31, 1<<32 - 1, 257, 1<<16 + 1}
+	idOff := 0
+	if len(hs) != nBlocks {
 		v.Note("verdict harness: synthetic blocks do not have distinct hashes")
 		v.Oracle(false, "harness:blocks-not-distinct", "synthetic blocks share a hash", nil)
 		return
@@ -897,11 +1167,12 @@ func c18Verdict(v *verifOut) {
 		}
 		return nd
 	}
-	// run checkCommits on replicas given as lists of node logs; replica i gets id i+1
+	// run checkCommits on replicas given as lists of node logs; replica i gets a distinct id from the pool
 	run := func(rs [][]c18Log) (safe bool, commits int, panicked bool) {
 		net := &Network{nodes: map[NodeID]*node{}, replicas: map[hotstuff.ID][]*node{}}
+		idOff++
 		for i, r := range rs {
-			id := hotstuff.ID(i + 1)
+			id := idPool[(idOff+i)%len(idPool)]
 			net.replicas[id] = []*node{}
 			for j, l := range r {
 				tw := uint32(0)
@@ -1039,6 +1310,48 @@ func c18Verdict(v *verifOut) {
 		}
 	}
 
+	// forks at every position of longer chains, logs of unequal lengths: the forking replica follows a
+	// chain of distinct blocks up to position f, then deviates (and either stays apart or re-converges);
+	// the other replicas hold prefixes of every length
+	maxL := v.Pick(7, 9)
+	for L := 1; L <= maxL; L++ {
+		chain := make(c18Log, L)
+		for j := range chain {
+			chain[j] = j + 1
+		}
+		var prefixes [][][]c18Log
+		prefixes = append(prefixes, nil)
+		for lb := 0; lb <= L; lb++ {
+			prefixes = append(prefixes, [][]c18Log{{append(c18Log{}, chain[:lb]...)}})
+		}
+		for f := 0; f < L; f++ {
+			for lf := f + 1; lf <= L; lf++ {
+				for _, reconverge := range []bool{false, true} {
+					if reconverge && (lf == f+1 || (!v.Thorough() && L > 5)) {
+						continue
+					}
+					fork := append(c18Log{}, chain[:lf]...)
+					for j := f; j < lf; j++ {
+						if j == f || !reconverge {
+							fork[j] = nBlocks
+						}
+					}
+					for la := 0; la <= L; la++ {
+						if !v.Thorough() && L > 5 && la != 0 && la != f && la != f+1 && la != L {
+							continue
+						}
+						v.Count("verdict_fork_cases")
+						emit([][]c18Log{{fork}, {append(c18Log{}, chain[:la]...)}}, prefixes, "f")
+						if L <= 4 {
+							// the deviating node is one of a twin pair: not compared
+							emit([][]c18Log{{fork, append(c18Log{}, chain[:lf]...)}, {append(c18Log{}, chain[:la]...)}}, prefixes, "ft")
+						}
+					}
+				}
+			}
+		}
+	}
+
 	// seeded random stream: up to 6 replicas, logs of up to 6 entries over 4 hashes, random twins;
 	// mostly-agreeing logs (a common chain with random truncation) with rare deviations
 	rounds := v.Pick(1500, 40000)
@@ -1068,10 +1381,178 @@ func c18Verdict(v *verifOut) {
 	}
 }
 
+// ---- ExecuteScenario: the reported verdict is the verdict function applied to the nodes' commit logs ----
+
+func c18Execute(v *verifOut) {
+	type job struct {
+		name      string
+		scen      Scenario
+		nn, nt    uint8
+		ticks     int
+		consensus string
+		opts      []core.RuntimeOption
+	}
+	var jobs []job
+	all4 := NewNodeSet(Replica(1), Replica(2), Replica(3), Replica(4))
+	for _, cons := range []string{rules.NameChainedHotStuff, rules.NameFastHotStuff, rules.NameSimpleHotStuff} {
+		var s Scenario
+		for i := 0; i < 7; i++ {
+			s = append(s, View{Leader: hotstuff.ID(1 + i%4), Partitions: []NodeSet{all4}})
+		}
+		var opts []core.RuntimeOption
+		if cons == rules.NameFastHotStuff {
+			opts = append(opts, core.WithAggregateQC())
+		}
+		jobs = append(jobs, job{"connected-" + cons, s, 4, 0, 60, cons, opts})
+		// a short run (few ticks) leaves the replicas with logs of different lengths
+		jobs = append(jobs, job{"connected-short-" + cons, s, 4, 0, 9, cons, opts})
+	}
+	// the partitioned scenarios of the package's own tests (gaps in the view sequence)
+	part := NewNodeSet(Replica(1), Replica(3), Replica(4))
+	lead := NewNodeSet(Replica(2))
+	for extra := 0; extra <= 2; extra++ {
+		s := Scenario{{Leader: 1, Partitions: []NodeSet{all4}}, {Leader: 2, Partitions: []NodeSet{lead, part}}, {Leader: 3, Partitions: []NodeSet{all4}}}
+		for i := 0; i < 2+extra; i++ {
+			s = append(s, View{Leader: 1, Partitions: []NodeSet{all4}})
+		}
+		jobs = append(jobs, job{fmt.Sprintf("partitioned-%d", extra), s, 4, 0, 100, rules.NameChainedHotStuff, nil})
+	}
+	// generated scenarios with a twin pair
+	for _, seed := range []int64{5, 6} {
+		g, panicked, _ := c18NewGen(Settings{NumNodes: 4, NumTwins: 1, Partitions: 2, Views: 6})
+		if panicked {
+			continue
+		}
+		c18Shuffle(g, seed)
+		for i := 0; i < v.Pick(3, 15); i++ {
+			if s, kind := c18Next(g); kind == c18Scen {
+				jobs = append(jobs, job{fmt.Sprintf("generated-%d-%d", seed, i), s, 4, 1, 80, rules.NameChainedHotStuff, nil})
+			}
+		}
+	}
+	// two twin pairs exceed f = 1: both halves of a split network hold a quorum of replica ids and commit
+	// their own chains, so the non-twin replicas 3 and 4 really diverge (a genuinely unsafe execution)
+	for _, cons := range []string{rules.NameChainedHotStuff, rules.NameSimpleHotStuff} {
+		a := NewNodeSet(Replica(1).Twin(1), Replica(2).Twin(1), Replica(3))
+		b := NewNodeSet(Replica(1).Twin(2), Replica(2).Twin(2), Replica(4))
+		for _, views := range []int{5, 8} {
+			var s Scenario
+			for i := 0; i < views; i++ {
+				s = append(s, View{Leader: hotstuff.ID(1 + i%2), Partitions: []NodeSet{a, b}})
+			}
+			jobs = append(jobs, job{fmt.Sprintf("split-two-twin-pairs-%s-%d", cons, views), s, 4, 2, 100, cons, nil})
+			// a common prefix first: everyone connected for some views, then the split
+			every := NewNodeSet(Replica(1).Twin(1), Replica(2).Twin(1), Replica(3), Replica(1).Twin(2), Replica(2).Twin(2), Replica(4))
+			var s2 Scenario
+			for i := 0; i < 5; i++ {
+				s2 = append(s2, View{Leader: 3, Partitions: []NodeSet{every}})
+			}
+			s2 = append(s2, s...)
+			jobs = append(jobs, job{fmt.Sprintf("connected-then-split-%s-%d", cons, views), s2, 4, 2, 150, cons, nil})
+		}
+	}
+	// the scenario of the (skipped) FHS bug test with the deliberately vulnerable commit rule
+	{
+		p134, p2 := NewNodeSet(Replica(1), Replica(3), Replica(4)), NewNodeSet(Replica(2))
+		p124, p3 := NewNodeSet(Replica(1), Replica(2), Replica(4)), NewNodeSet(Replica(3))
+		s := Scenario{}
+		for i := 0; i < 4; i++ {
+			s = append(s, View{Leader: 1, Partitions: []NodeSet{all4, {}}})
+		}
+		s = append(s, View{Leader: 2, Partitions: []NodeSet{p134, p2}}, View{Leader: 1, Partitions: []NodeSet{p134, p2}},
+			View{Leader: 3, Partitions: []NodeSet{p124, p3}}, View{Leader: 2, Partitions: []NodeSet{p124, p3}},
+			View{Leader: 2, Partitions: []NodeSet{p134, p2}}, View{Leader: 3, Partitions: []NodeSet{p134, p2}}, View{Leader: 3, Partitions: []NodeSet{p134, p2}})
+		jobs = append(jobs, job{"fhs-bug-vulnerable", s, 4, 0, 100, nameVulnerableFHS, []core.RuntimeOption{core.WithAggregateQC()}})
+		jobs = append(jobs, job{"fhs-bug-fasthotstuff", s, 4, 0, 100, rules.NameFastHotStuff, []core.RuntimeOption{core.WithAggregateQC()}})
+	}
+
+	sv := v.Stream("execute", "verdict_mismatches", 50)
+	for _, j := range jobs {
+		var res ScenarioResult
+		var err error
+		panicked := func() (p bool) {
+			defer func() {
+				if r := recover(); r != nil {
+					p = true
+					err = fmt.Errorf("%v", r)
+				}
+			}()
+			res, err = ExecuteScenario(j.scen, j.nn, j.nt, j.ticks, j.consensus, j.opts...)
+			return false
+		}()
+		meta := map[string]any{"scenario": j.name, "consensus": j.consensus}
+		if panicked || err != nil {
+			v.Note(fmt.Sprintf("ExecuteScenario(%s) did not complete: %v", j.name, err))
+			continue
+		}
+		// group the reported commit logs by replica id, interning block hashes
+		intern := map[hotstuff.Hash]int{}
+		byRep := map[hotstuff.ID][]c18Log{}
+		var ids []hotstuff.ID
+		var nodeIDs []NodeID
+		for id := range res.NodeCommits {
+			nodeIDs = append(nodeIDs, id)
+		}
+		sort.Slice(nodeIDs, func(a, b int) bool {
+			if nodeIDs[a].ReplicaID != nodeIDs[b].ReplicaID {
+				return nodeIDs[a].ReplicaID < nodeIDs[b].ReplicaID
+			}
+			return nodeIDs[a].TwinID < nodeIDs[b].TwinID
+		})
+		for _, id := range nodeIDs {
+			var l c18Log
+			for _, b := range res.NodeCommits[id] {
+				h, ok := intern[b.Hash()]
+				if !ok {
+					h = len(intern) + 1
+					intern[b.Hash()] = h
+				}
+				l = append(l, h)
+			}
+			if _, ok := byRep[id.ReplicaID]; !ok {
+				ids = append(ids, id.ReplicaID)
+			}
+			byRep[id.ReplicaID] = append(byRep[id.ReplicaID], l)
+		}
+		var rs [][]c18Log
+		var nonTwin []c18Log
+		for _, id := range ids {
+			rs = append(rs, byRep[id])
+			if len(byRep[id]) == 1 {
+				nonTwin = append(nonTwin, byRep[id][0])
+			}
+		}
+		wantSafe, wantCommits := c18Spec(nonTwin)
+		meta["replicas"] = rs
+		meta["safe"], meta["commits"] = res.Safe, res.Commits
+		v.Count("execute_runs")
+		if !wantSafe {
+			v.Count("execute_unsafe_runs")
+		}
+		if wantCommits > 0 {
+			v.Count("execute_runs_with_commits")
+		}
+		v.Seen("exec "+j.name, wantCommits > 0, meta)
+		v.Oracle(len(res.NodeCommits) == int(j.nn)+int(j.nt), "execute:node-commits-incomplete", "NodeCommits does not have one log per network node", meta)
+		if wantSafe != res.Safe {
+			fp := "execute.verdict:divergence-not-reported"
+			if wantSafe {
+				fp = "execute.verdict:false-alarm"
+			}
+			v.Oracle(false, fp, fmt.Sprintf("ScenarioResult.Safe=%v but the reported commit logs of non-twin replicas say %v", res.Safe, wantSafe), meta)
+		} else {
+			v.Oracle(true, "", "", nil)
+		}
+		v.Oracle(res.Commits == wantCommits, "execute.commits:not-the-agreed-prefix", fmt.Sprintf("ScenarioResult.Commits=%d, the agreed prefix of the reported commit logs has length %d", res.Commits, wantCommits), meta)
+		v.Case(sv, fmt.Sprintf("(%s,[[]],[(%s,%s)])", c18GReplicas(rs), gBool(res.Safe), gNat(res.Commits)), meta)
+	}
+}
+
 func TestVerifC18(t *testing.T) {
 	v := verifNew("C18")
 	c18Unit(v)
 	c18Generator(v)
 	c18Verdict(v)
+	c18Execute(v)
 	v.Close("generator: (settings, views, plain/shuffle seed) drains, non-trivial = at least 2 options and 2 views; verdict: sets of commit logs, non-trivial = at least two non-twin replicas one of which committed something")
 }
